@@ -803,6 +803,11 @@ class ODLEncoder(PVLEncoder):
                     f"with seconds values ({value}) which is "
                     "not allowed in ODL."
                 )
+            if h > 12:
+                raise ValueError(
+                    "ODL zone offsets are limited to 12 hours, this one "
+                    f"is larger: {value}"
+                )
             if m == 0:
                 return t + f"{sign}{h:02d}"
             else:
